@@ -330,6 +330,24 @@ pub fn run(cli: &Cli, rep: &Report) {
     if thorough {
         items.extend(corpus::medium());
     }
+    // streams longer than their dictionary whose matches lie close to the dictionary size: the decoder's window wraps
+    // and match copies cross the wrap point, so a destination buffer can end inside the second half of a wrapped copy
+    {
+        let o = Opts { dict: 4096, ..Opts::small() };
+        for (period, total) in [(4000usize, 20_000usize), (4096, 13_000), (3000, 9_000)] {
+            let input = gen::build(&[Seg::R(period), Seg::D(period, total - period)], 3);
+            for (name, cont) in [
+                ("lzma", Container::LzmaHdrMarker),
+                ("lzma2", Container::Lzma2),
+                ("lzip", Container::Lzip { member: None }),
+                ("xz", Container::Xz { check: 1, block: None, filters: vec![] }),
+            ] {
+                if let Ok(Ok(bytes)) = catch(|| codec::encode(&cont, &o, &input, &[])) {
+                    items.push(corpus::Item { name: format!("{name}-wrap-p{period}-n{total}"), cont, opts: o, input: input.clone(), bytes, foreign: false });
+                }
+            }
+        }
+    }
     // all container and filter readers, plus BCJ2 streams (branch-dense real x86 code, every / every other branch
     // converted by the harness's reference encoder): the main stream is the case's source, the call, jump and range
     // coder streams are in memory
